@@ -8,6 +8,9 @@ from vlib.gens import hx, nat_pattern, PATTERNS, signed
 GROUP = "ratio"
 LEAN_PROPS = "Dashu.Props.C18"
 LEAN_AUDIT = "Dashu.Audit.C18"
+# compositions with other groups' proved files, kept apart from the property's own theorems
+GEN_PROPS = ["Dashu.Props.C18Link"]
+GEN_AUDIT = ["Dashu.Audit.C18Link"]
 USES_GEN = True
 JOBS = 12
 
@@ -18,14 +21,18 @@ REFINED = ["Repr::simplest_in (continued-fraction descent: soundness, simultaneo
            "RBig::is_simpler_than (regenerated text = the documented lexicographic order, is_simpler_than_lexicographic)",
            "pickSimplest (tail of simplest_from_f32/f64/float): optimal over the interior and the allowed end points",
            "RBig::simplest_from_f32 / simplest_from_f64: result converts back to exactly the float under builder-conv's IEEE "
-           "round-to-nearest-even specification (ieeeRoundRat) and is the simplest fraction that does (simplest_from_f32_exact, "
-           "simplest_from_f64_exact; rounding_set_is_preimage: the interval is the exact preimage for every IEEE binary format)"]
-FRONTIER = [
-            "RBig::simplest_from_float (FBig, modes x bases, float/src/round.rs ErrorBounds): modelled at the REQUIRED behaviour "
-            "with six named deviation switches that reproduce the code exactly; checked by an independent rounding oracle + "
-            "brute force; built on the proved simplest_in / pickSimplest, no theorem about the FBig rounding sets",
+           "round-to-nearest-even specification (ieeeRoundRat) and is the simplest fraction that does (Props/C18Link: simplest_from_f32_exact, "
+           "simplest_from_f64_exact; rounding_set_is_preimage: the interval is the exact preimage for every IEEE binary format)",
+           "RBig::simplest_from_float (FBig), required behaviour: every mode is a window (mode_is_window), the rounding set of an "
+           "FBig value for every base/mode/precision (fbig_rounding_set_exact), the model's table is that set, and the result rounds "
+           "back and is the simplest fraction that does (simplest_from_fbig_exact)"]
+FRONTIER = ["the correspondence model <-> code of simplest_from_float (FBig) is by six named deviation switches (the code's "
+            "ErrorBounds is defective: recorded finding); the theorems are about the required behaviour (Quirks.none)",
+            "RoundsTo (correct rounding to p digits: binade t, quantum b^(t-p), builder-float's roundInt) is builder-float's "
+            "specRound with ulpExp spelled out as t - p; the identity ulpExp = t - p (ilogQ) is not proved here",
             "Repr::cmp / PartialOrd for Repr (rational/src/cmp.rs) is taken at its contract (C05)",
-            "dashu-int kernels (div_rem, gcd, mul) at their contracts (C01, C02, C12)"]
+            "dashu-int kernels (div_rem, gcd, mul) at their contracts (C01, C02, C12)",
+            "FBig special inputs (infinite -> None, unlimited precision -> the number itself): observed by tests only, no theorem"]
 RULE = ("simplest_in: end points from {small fractions, neighbours in a Farey sequence, convergents of a random continued "
         "fraction (very narrow intervals, large denominators), integers, zero, huge/tiny} in both orders, equal, negative, "
         "sign-straddling, zero/integer end points; is_simpler_than: pairs agreeing/differing in denominator, |numerator|, "
@@ -33,7 +40,7 @@ RULE = ("simplest_in: end points from {small fractions, neighbours in a Farey se
         "<, =, > limit, integers, negatives, exact midpoints of neighbours (ties); simplest_from_f32/f64: bit patterns around "
         "every power of two, subnormals, least/greatest finite, even/odd mantissas, exponents on both sides of the "
         "mantissa width, quotients p/q of small integers, NaN/inf/zeros; simplest_from_float: 6 modes x bases {2,3,10,16} x "
-        "significands {B^k, B^k-1, B^k+1, random, 0} x precision {digits, digits+1.., 0 = unlimited} x exponents x signs. Non-trivial := not an integer-only or equal-end-point "
+        "significands {B^k, B^k-1, B^k+1, random, 0} x precision {digits, digits+1.., 0 = unlimited} x exponents x signs, plus +inf/-inf of every mode/base (None). Non-trivial := not an integer-only or equal-end-point "
         "case; distinct := distinct case lines.")
 EXPLANATION = ("Theorems (all integers, all limits): simplest_in returns a reduced fraction strictly inside the interval whose "
                "numerator magnitude and denominator are both minimal among all fractions strictly inside (Stern-Brocot "
@@ -201,6 +208,8 @@ def ndigits(n, b):
 def gen_fbig(rng, tier):
     b = rng.choice([2, 2, 3, 10, 10, 16])
     mode = rng.choice(MODES)
+    if rng.random() < 0.02:
+        return Case("s.fromfloat", [mode, "d:%d" % b, rng.choice(["inf", "-inf"]), "d:0", "d:%d" % rng.choice([0, 1, 5])])
     r = rng.random()
     k = rng.choice([1, 1, 2, 3, 4, 8, 20])
     if r < 0.25:
@@ -247,8 +256,10 @@ LEVEL_TEXT = ("Machine-checked Lean 4 theorems, for all integers and all limits 
               "order (denominator, then numerator magnitude, then sign). The model is "
               "tied to /repo by differential execution; simplest_from_f32/f64: proved to return a fraction that rounds back "
               "(nearest-even, the IEEE specification of C06) to exactly the given float and to be the simplest such fraction, "
-              "the interval being the exact preimage of the float; simplest_from_float (FBig, 6 modes x 4 bases) likewise, with the code's deviations "
-              "reproduced exactly by six named switches so that every disagreement is attributed.")
+              "the interval being the exact preimage of the float; simplest_from_float (FBig): for every base, mode and precision the "
+              "rounding set of a float is proved (builder-float's mode definitions) and the required result is proved to round back "
+              "and be the simplest such fraction; the code deviates through ErrorBounds (recorded finding), and the driver reproduces "
+              "the code exactly from six named deviation switches of that model, so every disagreement is attributed.")
 LEVEL_NOTE = ("Trusted: Lean kernel; axioms propext/Classical.choice/Quot.sound; correspondence harness and generators (sampling); "
               "Repr::cmp and dashu-int kernels at their contracts. Repaired in /repo after being found here (fixed: lines in "
               "known_findings.jsonl): is_simpler_than conjunction, simplest_in zero end point, next_up/next_down limit = 1 debug "
